@@ -32,6 +32,8 @@ BoundsWhy(e) ==
           ELSE IF ~ClampOk(e.node, e.t, c, e.lo, hi, sb, cl) THEN "clamp-value-wrong"
           ELSE IF e.clamp_assign # e.clamp \/ e.slice # e.clamp THEN "forms-disagree"
           ELSE IF e.within_out # 1 \/ e.within_out_assign # 1 THEN "clamped-not-within"
+          \* a slice of colours is within bounds iff every colour in it is (the clamped ones are, by the line above)
+          ELSE IF "slice_within" \in DOMAIN e /\ e.slice_within # <<e.within_in, e.within_in, e.within_in, 1>> THEN "slice-within-bounds-differs"
           ELSE IF e.clamp2 # e.clamp THEN "not-idempotent"
           ELSE IF Within(e.node, c, e.lo, hi) /\ e.clamp # e["in"] THEN "inbounds-changed"
           \* self-consistency inside a documented slack band, where the model accepts either flag: a colour that REPORTS
